@@ -30,6 +30,7 @@ type realTask struct {
 	allowFail bool
 	ignoreInt bool // the process ignores SIGINT: only the kill timeout ends it
 	signaled  bool // the task's last command kills itself with SIGKILL (exit 137): a failure like any other
+	quietFail string // "and-list" / "negation": a script line that ends non-zero in a form 'set -e' would overlook; exit 1
 	trailing  int  // further commands of the script after the one that runs for durMs (a stop or a failure there leaves them unexecuted)
 	leading   bool // a command in front of it
 }
@@ -49,10 +50,14 @@ func genRealGraph(t *rapid.T, maxTasks int, withFailures bool) []realTask {
 		}
 		if withFailures {
 			if rapid.IntRange(0, 3).Draw(t, "fails") == 0 {
-				if k := rapid.IntRange(0, 4).Draw(t, "parseError"); k == 0 {
+				if k := rapid.IntRange(0, 6).Draw(t, "parseError"); k == 0 {
 					rtk.parseErr = true
 				} else if k == 1 {
 					rtk.signaled, rtk.exit = true, 137
+				} else if k == 2 {
+					rtk.quietFail, rtk.exit = "and-list", 1
+				} else if k == 3 {
+					rtk.quietFail, rtk.exit = "negation", 1
 				} else {
 					rtk.exit = rapid.IntRange(1, 120).Draw(t, "exitCode")
 				}
@@ -84,6 +89,15 @@ func graphDef(vh, marker, ready string, ts []realTask, cont bool) definition.Pip
 				lines = append(lines, fmt.Sprintf("echo after-%s-%d", tk.name, k))
 			}
 		}
+		if tk.quietFail != "" {
+			// the helper ends normally; the next line of the script fails in a way that an interpreter running the
+			// whole script under 'set -e' would not stop at - each line is a command of its own, its status counts
+			bad := "test -f /nonexistent/" + tk.name + " && echo never-" + tk.name
+			if tk.quietFail == "negation" {
+				bad = "! true"
+			}
+			lines = []string{fmt.Sprintf("%s hang %s-%s --ready %s.%s --for %dms --exit 0", vh, marker, tk.name, ready, tk.name, tk.durMs), bad, "echo after-" + tk.name}
+		}
 		if tk.signaled {
 			// the helper ends normally, then a command of the task dies from a signal nobody of the runner sent
 			lines = []string{fmt.Sprintf("%s hang %s-%s --ready %s.%s --for %dms --exit 0", vh, marker, tk.name, ready, tk.name, tk.durMs), "sh -c 'kill -KILL $$'"}
@@ -109,6 +123,9 @@ func describeGraph(ts []realTask) string {
 		}
 		if tk.signaled {
 			s += "(killed by a signal)"
+		}
+		if tk.quietFail != "" {
+			s += "(" + tk.quietFail + " line)"
 		}
 		if tk.parseErr {
 			s += " parse-error"
